@@ -5,6 +5,7 @@ import JominiModel.Proofs.TextDeStream
 import JominiModel.Proofs.TextDeTape
 import JominiModel.Proofs.TextDeTapeNested
 import JominiModel.Proofs.TextEndToEnd
+import JominiModel.Proofs.TextDeKnown
 /-
 C02 — Text deserialization returns the document's values on both parse paths.
 Only property theorems live here; helper lemmas are in `Proofs/TextDe*.lean`.
@@ -158,5 +159,53 @@ example :
     simp only [List.mem_cons, Prod.mk.injEq, List.not_mem_nil, or_false] at hm
     obtain ⟨_, _, rfl⟩ := hm
     exact FitsT.scalar rfl
+
+/-! ### the known findings, on the models (the fragment boundaries of the theorems above are tight) -/
+
+/-- Known finding `array-leading-empty`, reproduced on the models from the same BYTES `a={ {} x y }`
+into `st(a:seq(ign))`: the tape parser drops the empty `{}` that stands first in the array, the slice
+reader keeps it; the tape path yields 2 elements, the streaming path 3.  (Outside `SPlainF`: a ghost
+`{}` at the start of a container.) -/
+theorem C02_known_array_leading_empty_breaks :
+    ∃ (T : List TextTape.Tok) (b : Bool),
+      TextTape.parse Jomini.TextE2E.bytesLeadingEmpty = .ok T b ∧
+      (TextReader.sliceTokens Jomini.TextE2E.bytesLeadingEmpty).out = .end_ ∧
+      deTape .utf8 (.st [([97], .seq .ign)]) (Jomini.TextE2E.toTextDeTape T)
+        = .ok (.st [([97], .seq [.ign, .ign])]) ∧
+      deStream .utf8 (.st [([97], .seq .ign)])
+          ((TextReader.sliceTokens Jomini.TextE2E.bytesLeadingEmpty).toks.map Jomini.TextE2E.toRTok)
+        = .ok (.st [([97], .seq [.ign, .ign, .ign])]) ∧
+      deTape .utf8 (.st [([97], .seq .ign)]) (Jomini.TextE2E.toTextDeTape T) ≠
+        deStream .utf8 (.st [([97], .seq .ign)])
+          ((TextReader.sliceTokens Jomini.TextE2E.bytesLeadingEmpty).toks.map Jomini.TextE2E.toRTok) := by
+  have h1 : deTape .utf8 (.st [([97], .seq .ign)]) (Jomini.TextE2E.toTextDeTape
+      [.unquoted ⟨12, [97]⟩, .array 4 false, .unquoted ⟨5, [120]⟩, .unquoted ⟨3, [121]⟩, .endTok 1])
+      = .ok (.st [([97], .seq [.ign, .ign])]) := by rfl
+  have h2 : deStream .utf8 (.st [([97], .seq .ign)])
+      ((TextReader.sliceTokens Jomini.TextE2E.bytesLeadingEmpty).toks.map Jomini.TextE2E.toRTok)
+      = .ok (.st [([97], .seq [.ign, .ign, .ign])]) := by
+    rw [Jomini.TextE2E.leadingEmpty_lex.1]; rfl
+  refine ⟨_, _, Jomini.TextE2E.leadingEmpty_parse, Jomini.TextE2E.leadingEmpty_lex.2, h1, h2, ?_⟩
+  rw [h1, h2]; simp
+
+/-- Known finding `text-reader-header`, reproduced on the models from the same BYTES
+`color = rgb { 1 2 3 }` into `st(color:seq(any))`: the tape path reads the header value as a
+two-element sequence (header, body -- each presented by `deserialize_any` as the body), the streaming
+path ignores the current token in `deserialize_seq` and runs into the end of the input.  (Outside
+`Fits`: a sequence target on a header value.) -/
+theorem C02_known_text_reader_header_breaks :
+    ∃ (T : List TextTape.Tok) (b : Bool),
+      TextTape.parse Jomini.TextE2E.bytesHeaderSeq = .ok T b ∧
+      (TextReader.sliceTokens Jomini.TextE2E.bytesHeaderSeq).out = .end_ ∧
+      deTape .utf8 (.st [(Jomini.TextE2E.keyColor, .seq .any)]) (Jomini.TextE2E.toTextDeTape T)
+        = .ok (.st [(Jomini.TextE2E.keyColor,
+            .seq [.seq [.str [49], .str [50], .str [51]], .seq [.str [49], .str [50], .str [51]]])]) ∧
+      deStream .utf8 (.st [(Jomini.TextE2E.keyColor, .seq .any)])
+          ((TextReader.sliceTokens Jomini.TextE2E.bytesHeaderSeq).toks.map Jomini.TextE2E.toRTok)
+        = .error .other := by
+  have h2 : deStream .utf8 (.st [(Jomini.TextE2E.keyColor, .seq .any)])
+      ((TextReader.sliceTokens Jomini.TextE2E.bytesHeaderSeq).toks.map Jomini.TextE2E.toRTok) = .error .other := by
+    rw [Jomini.TextE2E.headerSeq_lex.1]; rfl
+  exact ⟨_, _, Jomini.TextE2E.headerSeq_parse, Jomini.TextE2E.headerSeq_lex.2, by rfl, h2⟩
 
 end Jomini.Props.C02
